@@ -39,7 +39,7 @@ func main() {
 				bad++
 			}
 		}
-		if res.SnapBefore != res.SnapAfter {
+		if gone, added := shared.FingerprintDiff(res.FpBefore, res.FpAfter, 4); res.SnapBefore != res.SnapAfter || len(gone)+len(added) > 0 {
 			fmt.Printf("racer: %s: Program changed\n", w.Name)
 			bad++
 		}
